@@ -174,6 +174,11 @@ def run(chk: Check):
     rule_p2(chk, ix, ir)
     rule_p3(chk, ix, ir)
     rule_p4(chk, ix, tr.interp)
+    # every bracket form must stay reachable through the look-aheads in front of it, and adjacency compares columns that
+    # must all be in one unit (rules of C01, necessary here too)
+    from .c01 import rule_column_unit, rule_lookahead_cover
+    rule_lookahead_cover(chk, ir)
+    rule_column_unit(chk, only_consistent=True)
     chk.floor("P1-bracket-table", 9)
     chk.floor("P2-adjacency", 4)
     chk.floor("P3-whitespace-tokens", 2)
